@@ -12,6 +12,7 @@ from typing import Any, Callable, Dict, List, Optional, Set, Tuple
 from oracle.metamodel import INT_MAX, INT_MIN, UINT_MAX, UINT_MIN, MetaModel, STRING_BASES
 from pyvc import smt
 from pyvc.smt import And, Eq, Ite, Not, Or, TRUE, FALSE, Implies
+from pyvc.symex import _Return as _ReturnT
 from pyvc.symex import (
     Ctx,
     FunctionInfo,
@@ -837,9 +838,27 @@ class HookInterp(Interp):
                 if not isinstance(o, (VStr, VJson)):
                     return VBool(FALSE if dunder == "__eq__" else TRUE)
             raise Unsupported("comparison of an unnamed key with a non-literal")
+        if (isinstance(a, VJson) or isinstance(b, VJson)) and dunder not in ("__eq__", "__ne__"):
+            # ordering: defined between numbers (bool counts as 0/1); anything else raises TypeError
+            def num(v):
+                if not isinstance(v, VJson):
+                    return v
+                self._touch(v)
+                S0, t0 = self.site, self.site.tag(v.path)
+                k0 = ctx.choose([Eq(t0, "2"), Eq(t0, "1"), Eq(t0, "3"), Or(Eq(t0, "0"), Eq(t0, "4"), Eq(t0, "5"), Eq(t0, "6"))])
+                if k0 == 0:
+                    return VInt(S0.i(v.path))
+                if k0 == 1:
+                    return VInt(Ite(S0.b(v.path), "1", "0"))
+                if k0 == 2:
+                    return VFloat(S0.r(v.path))
+                raise PyRaise("TypeError", [], "ordering between a JSON value that is not a number and a number")
+
+            na, nb = num(a), num(b)
+            if not isinstance(na, (VInt, VBool, VFloat)) or not isinstance(nb, (VInt, VBool, VFloat)):
+                raise Unsupported("ordering between a json value and a non-number")
+            return super()._rich(ctx, na, nb, dunder)
         if isinstance(a, VJson) or isinstance(b, VJson):
-            if dunder not in ("__eq__", "__ne__"):
-                raise Unsupported("ordering on json value")
             j, o = (a, b) if isinstance(a, VJson) else (b, a)
             self._touch(j)
             S = self.site
@@ -1105,6 +1124,56 @@ class HookInterp(Interp):
             if t == is_any:
                 raise_inf()
         return VBool(FALSE if is_any else TRUE)
+
+    def for_hook(self, ctx: Ctx, s: ast.For, it: V, env, fi) -> bool:
+        """`for x in <json array>`: arrays of up to NELEMS elements are unrolled; for longer ones the body must be a pure check (it
+        only raises / returns / passes): either some element makes it exit (the witness element) or none does (generic + witness)."""
+        if not isinstance(it, VJson):
+            return False
+        if s.orelse:
+            raise Unsupported("for-else")
+        kind = self.node_class(ctx, it)
+        if kind == "scalar":
+            raise PyRaise("TypeError", [], "object is not iterable")
+        S = self.site
+        if kind != "arr":
+            # iterating an object yields its keys, a string its characters: strings in both cases.  Only the case where the body leaves
+            # the function on the first one is modelled (a type check that rejects the element); otherwise the subset is left.
+            nonempty = S.sym(f"nonempty {it.path}", "Bool") if kind == "obj" else Not(Eq(S.s(it.path), '""'))
+            if not ctx.branch(nonempty):
+                return True
+            self.assign(ctx, s.target, VStr(ctx.fresh("first_key_or_char", "String")), env, fi)
+            self.exec_block(ctx, s.body, env, fi)
+            raise Unsupported(f"for over a JSON {kind} whose body does not leave the function on the first element")
+        ln = S.length(it.path)
+        k = ctx.choose([Eq(ln, "0")] + [Eq(ln, smt.sint(i)) for i in range(1, NELEMS + 1)] + [smt.Gt(ln, smt.sint(NELEMS))])
+        for i in range(min(k, NELEMS)):
+            self.assign(ctx, s.target, VJson(S.elem(it.path, i)), env, fi)
+            self.exec_block(ctx, s.body, env, fi)
+        if k <= NELEMS:
+            return True
+        for node in ast.walk(s):
+            if isinstance(node, (ast.Assign, ast.AugAssign, ast.AnnAssign, ast.Break, ast.Continue, ast.Call)) and not (isinstance(node, ast.Call) and self._pure_call(node)):
+                raise Unsupported("loop over a JSON array whose body is not a pure check")
+        S.witness_arrays.add(it.path)
+        gen, wit = VJson(S.elem(it.path, "*")), VJson(S.elem(it.path, "w"))
+        exists = ctx.choose([TRUE, TRUE]) == 0
+        if exists:
+            self.assign(ctx, s.target, wit, env, fi)
+            self.exec_block(ctx, s.body, env, fi)  # must leave the function (raise / return)
+            raise_inf()
+        for node in (gen, wit):
+            self.assign(ctx, s.target, node, env, fi)
+            try:
+                self.exec_block(ctx, s.body, env, fi)
+            except (PyRaise, _ReturnT):
+                raise_inf()
+        return True
+
+    @staticmethod
+    def _pure_call(node: ast.Call) -> bool:
+        f = node.func
+        return isinstance(f, ast.Name) and f.id in ("isinstance", "len", "ValueError", "TypeError", "KeyError", "str", "int", "bool", "float", "repr", "type")
 
     def expr_hook(self, ctx: Ctx, e: ast.expr, env, fi):
         if isinstance(e, ast.GeneratorExp):
